@@ -2,10 +2,14 @@
 
 Proof stage: theorems about the Forward model (coq/theories/Forward).
 Tie: trace recogniser — the real three-hop fixture (real links, switch, circuit
-map, lnwallet channels) runs seeded batches of concurrent payments; the model,
-evaluated by vm_compute, must accept the observed event order and agree with
-the observed end state.  Independently of the model, the property predicate is
-evaluated on the implementation's own wire trace and quiescent end state.
+map, lnwallet channels) runs seeded batches of concurrent payments WITH INJECTED
+FAULTS (link stop/start = peer reconnect with channel_reestablish, restart of the
+forwarder's whole switch on the same database, message loss followed by a
+reconnect, message delays; plus one directed restart scenario); the model,
+evaluated by vm_compute, must accept the observed event order (ELinkRestart /
+ERestart included) and agree with the observed end state.  Independently of the
+model, the property predicate is evaluated on the implementation's own wire trace
+and quiescent end state.
 """
 import hashlib
 import os
@@ -426,7 +430,11 @@ def run(ctx):
         "goroutine scheduling, onion processing, mailbox timers, peer transport and the wire-level "
         "commitment dance are NOT modelled: they are exercised by the three-hop harness only (partial)",
         "model events are derived from in-process observation points at the forwarder: HtlcNotifier, "
-        "CircuitMap proxy, ForwardPackets wrapper, Peer.SendMessage wrapper, mockServer interceptors"])
+        "CircuitMap proxy, ForwardPackets wrapper, Peer.SendMessage wrapper, NotifyContractUpdate "
+        "(= commitment signed), DecodeHopIterators wrapper, mockServer interceptors",
+        "fault injection is done by the harness around the real code: Switch.RemoveLink / AddLink of fresh "
+        "channelLinks over channel states reloaded from disk, a new Switch on the same database, an "
+        "epoch-tagging message filter; restarts are graceful stops, not crashes inside a handler"])
     env = {}
     # -race is off by default: the lnd test fixture shares one mockObfuscator between all links
     # (mock.go EncryptFirstHop writes o.failure), which the detector flags on any two concurrent fails.
@@ -531,8 +539,9 @@ def run(ctx):
             [c for c in rows if len(c["pays"]) >= 2],
             lambda c: [t for t, _ in to_events(c)[0]]),
         "rule": "one evaluation = one batch of 3-10 (thorough: 3-24) concurrent payments both directions on a "
-                "fresh three-hop network; non-trivial = at least 2 payments; distinct by the full observed "
-                "model-event order",
+                "fresh three-hop network with the faults of its mode (flap, drop+flap, restart, drop+restart, "
+                "2-3 faults, delays, crossflap) or the directed restart scenario; non-trivial = at least 2 "
+                "payments; distinct by the full observed model-event order",
         "traces_validated_against_impl": len(rows),
         "payments": npay, "payment_kinds": kinds, "kind_results": results,
         "impl_event_kinds": evk, "model_event_kinds": mev,
@@ -551,7 +560,9 @@ def run(ctx):
     ctx.assumptions += [
         "PARTIAL: the theorems cover all orders of the MODELLED events; real goroutine schedules are only "
         "sampled by the harness",
-        "restart is modelled as a whole-node restart; a restart of a single link is not modelled",
+        "restarts (whole node: ERestart, single link: ELinkRestart) are graceful stops; a crash between two "
+        "database transactions of one handler is neither modelled nor injected",
+        "batches in which the replay-index defect C08-F1 was triggered are attributed to it as a whole",
         "signature + circuit deletion + mailbox ack are one atomic model step (lnd: CommitDiff is atomic, "
         "DeleteCircuits follows in the same goroutine)"]
     if ctx.thorough and pr["ok"]:
